@@ -42,3 +42,10 @@ Example mangle_if_ex :
   mangle_if (fun r => 1000 <=? r) false false (EBin BLooseNe (EId 1 false false) ENull) (EId 1 false false) (EStr [98])
   = Some (EBin BNullish (EId 1 false false) (EStr [98])).
 Proof. vm_compute. reflexivity. Qed.
+
+(* check_equality_sound is not vacuous: -0 === 0 is true, NaN == NaN false, null == undefined true, true == 1 true *)
+Example check_equality_ex :
+  [check_equality (ENum (Fin true 0 0)) (ENum (Fin false 0 0)) true; check_equality (ENum NaN) (EInlinedEnum (ENum NaN)) false;
+   check_equality ENull EUndefined false; check_equality ENull EUndefined true; check_equality (EBool true) (ENum (Fin false 1 0)) false]
+  = [(true, true); (false, true); (true, true); (false, true); (true, true)].
+Proof. vm_compute. reflexivity. Qed.
